@@ -14,24 +14,33 @@ Edges == IF Size = "small" THEN {<<1, 90>>, <<1, 181>>, <<-1, 270>>}
 VARIABLES pre, polyline, verts, hows
 
 \* a fixed prefix executed and then cleared: clearing must restore the empty state
-Garbage == << <<"pt", "N", 0>>, <<"pt", "E", 10>>, <<"ed", 1, 100>> >>
+\* (the first prefix crosses the prime meridian an odd number of times, so that a stale crossing count shows in the next polygon)
+Garbage == << <<"pt", "E", -10>>, <<"pt", "E", 10>>, <<"ed", 1, 100>> >>
+GarbageN == << <<"pt", "N", 0>>, <<"pt", "E", 10>>, <<"ed", 1, 100>> >>
 
-Init == /\ pre \in {<<>>, Garbage} /\ polyline \in {FALSE, TRUE} /\ verts = <<>> /\ hows = <<>>
+Init == /\ pre \in (IF Size = "small" THEN {<<>>, Garbage} ELSE {<<>>, Garbage, GarbageN}) /\ polyline \in {FALSE, TRUE} /\ verts = <<>> /\ hows = <<>>
+
+\* operations spent before a Clear chosen by the model (the fixed prefixes are free)
+Fixed == {<<>>, Garbage, GarbageN}
+Used == IF pre \in Fixed THEN 0 ELSE Len(pre)
 
 AddPoint(p) ==
-  /\ Len(verts) < Depth
+  /\ Len(verts) + Used < Depth
   /\ ~(verts # <<>> /\ Antipodal(verts[Len(verts)], p))        \* shortest line must be unique
   /\ verts' = Append(verts, p) /\ hows' = Append(hows, <<"pt">>)
   /\ UNCHANGED <<pre, polyline>>
 AddEdge(e) ==
-  /\ Len(verts) < Depth /\ AddEdgeOK(verts)
+  /\ Len(verts) + Used < Depth /\ AddEdgeOK(verts)
   /\ LET r == AddEdgeS(verts, hows, e[1], e[2]) IN verts' = r[1] /\ hows' = r[2]
   /\ UNCHANGED <<pre, polyline>>
-Next == (\E p \in Verts : AddPoint(p)) \/ (\E e \in Edges : AddEdge(e))
-
 \* the history as an operation list
 Ops == [i \in 1..Len(verts) |-> IF hows[i][1] = "pt" THEN <<"pt", verts[i][1], verts[i][2]>>
                                 ELSE <<"ed", hows[i][2], hows[i][3]>>]
+
+\* Clear at any point of a history (once): what was built becomes the prefix, the object must be empty again
+Clear == /\ pre = <<>> /\ Len(verts) \in 1..(Depth - 1)
+         /\ pre' = Ops /\ verts' = <<>> /\ hows' = <<>> /\ UNCHANGED polyline
+Next == (\E p \in Verts : AddPoint(p)) \/ (\E e \in Edges : AddEdge(e)) \/ Clear
 
 (* ------------------------ invariants of the model ------------------------ *)
 Rot(s, k) == [i \in 1..Len(s) |-> s[((i + k - 1) % Len(s)) + 1]]
@@ -70,5 +79,5 @@ ReportInv ==
     /\ c[1] = Len(verts)
     /\ \A a \in c[3] : IF Flags[f][2] THEN a >= -360 /\ a <= 360 ELSE a >= 0 /\ a <= 720
 
-Emit == Len(verts) = Depth => PrintT(ToJson(<<"hist", polyline, pre, Ops>>))
+Emit == Len(verts) + Used = Depth => PrintT(ToJson(<<"hist", polyline, pre, Ops>>))
 =============================================================================
